@@ -236,6 +236,17 @@ func reifyMap(opts *options, to reflect.Value, from *Config, validators []valida
 		}
 	}
 
+	// entries not touched by the configuration must validate as well, like
+	// untouched elements of slices do
+	for _, key := range to.MapKeys() {
+		if _, touched := fields[key.String()]; touched {
+			continue
+		}
+		if err := tryRecursiveValidate(to.MapIndex(key), opts, nil); err != nil {
+			return raiseValidation(from.ctx, from.metadata, key.String(), err)
+		}
+	}
+
 	if err := runValidators(to.Interface(), validators); err != nil {
 		return raiseValidation(from.ctx, from.metadata, "", err)
 	}
